@@ -21,6 +21,28 @@ Tolerance for tree-based values: |err| <= 1e-10 * scale, scale = sum_i |coef_i| 
 (degree = n, l, n + l): measured max err/scale 1.3e-15 on the pinned tree (quick+thorough, seeds
 0-2); the mutants (n vs n+1, row offsets, dropped normalisation) give err/scale >= 1e-2.
 Dipole: |err| <= 1e-11 * (sum |terms|): measured 4e-16.
+
+Second model (audit): spec/MomentsX.tla + spec/MC_MomentsX.tla, run after the first one (``_run_x``).
+  * extended cases: per-case maximal orders (Cartesian 0..6 judged exactly by TLC, Cartesian / radial up to 8 | 12 and
+    pure / pure-radial up to 4 | 6 by trees - Cartesian monomial trees evaluated in exact fractions), 1..6 centres with
+    duplicates, geometries (star about a centre: r = 0 and the six axis directions, one-point, empty, duplicate points),
+    zero / negative / fractional weights, coordinates on three dyadic lattices, points and centres times 2^shift
+    (shift in -40..30; the specification's scaling law, checked by TLC on the exact moments, gives the factor),
+    argument forms of function values (float64/32/16, longdouble, int64/32, uint8, bool, read-only, strided),
+    centres (float64/32, int64, Fortran order, strided, read-only), grid points (C/F order, strided, read-only, int64,
+    float32, flat), maximal order (int, np.int64, np.int32) and of the call (keywords / positional, return_orders
+    given / omitted, type_mom omitted); frame condition (no argument modified) and same-call-twice.
+  * sessions: TLC's session machine carries the current points of two grids through triples
+    (call, perturbation, call again) - perturbations: in-place edit of / assignment to grid.points, scribbling over
+    every array returned so far, other calls; every step is judged by TLC (rows, exact Cartesian moments of the grid
+    as it is at that step, frame condition) or against the trees with the per-step terms TLC emitted.
+  * order-listing call forms (dim omitted, keywords, called again after the first result was overwritten, NumPy
+    integer orders through Grid.moments) for all orders 0..8 | 12, judged by TLC.
+  * extended dipole cases: 1..6 nuclei, charges from the whole table (1..82), forms of charges / coordinates /
+    density, frame condition and same-call-twice.
+Same tolerances (no new ones): measured on the pinned tree (quick seeds 0-5 + thorough) max err/scale 1.7e-15 for the
+tree-based values (Cartesian by trees: exactly 0), 6e-17 for the dipoles; the mutants of X_MUTANTS give >= 1e-8.
+Not covered: solid harmonics beyond l = 6 (the normalisation (l+|m|)!/(l-|m|)! leaves TLC's 32-bit integers at l = 7).
 """
 from __future__ import annotations
 
@@ -269,7 +291,7 @@ def _observe(rep: Report, tier: str, emitted: dict):
 
 def _run_families(rep: Report, tier: str, wd: Path) -> int:
     quick = tier == "quick"
-    consts = {"MaxOrder": 8, "MaxL": 4 if quick else 6, "Seed": rep.seed, "NCases": 24 if quick else 480,
+    consts = {"MaxOrder": 8 if quick else 12, "MaxL": 4 if quick else 6, "Seed": rep.seed, "NCases": 24 if quick else 480,
               "CartL": 4 if quick else 8, "PureL": 3 if quick else 6, "NDipole": 6 if quick else 40}
     _obs_module(wd, None)
     cfg = _cfg(wd, "MC_Moments_emit.cfg", {**consts, "Emit": True})
@@ -283,7 +305,7 @@ def _run_families(rep: Report, tier: str, wd: Path) -> int:
         json.dump(obs, f)
     _obs_module(wd, "obs_moments.json")
     cfg = _cfg(wd, "MC_Moments.cfg", {**consts, "Emit": False}, INVARIANTS)
-    res = tlc.run_tlc("MC_Moments", cfg, wd, workers=16, timeout=1500).require_ok("MC_Moments")
+    res = tlc.run_tlc("MC_Moments", cfg, wd, workers=8, timeout=1500).require_ok("MC_Moments")
     rep.tlc(res, "MC_Moments")
     if res.status == "violation":
         st = tlc.last_state(res)
@@ -342,6 +364,11 @@ def _class_independence(rep: Report, tier: str) -> int:
             "PeriodicGrid": lambda: PeriodicGrid(rng.uniform(0, 1, (7, 3)), rng.uniform(0.1, 1, 7), np.array([[1.5, 0, 0], [0, 1.2, 0.1]])),
             "Tensor1DGrids[2D]": lambda: Tensor1DGrids(od(3, 1.0), od(4, 0.5)),
             "OneDGrid": lambda: od(5, 1.0),
+            # a slice of a grid (Grid.__getitem__), integer-typed points as UniformGrid builds them from integer
+            # origin / axes, a one-dimensional slice
+            "Grid[2:9]": lambda: Grid(rng.uniform(-1, 1, (11, 3)), rng.uniform(0.1, 1, 11))[2:9],
+            "UniformGrid[int64 points]": lambda: UniformGrid(np.array([-2, -1, -2]), np.array([[1, 0, 0], [0, 2, 0], [0, 1, 1]]), np.array([3, 2, 3])),
+            "OneDGrid[1:4]": lambda: od(5, 1.0)[1:4],
         }
         for name, mk in makers.items():
             try:
@@ -355,24 +382,487 @@ def _class_independence(rep: Report, tier: str) -> int:
             except Exception as e:  # noqa: BLE001
                 rep.violation(f"class-independence:{name}:build", f"fixture of {name} raised {type(e).__name__}: {e}")
                 continue
-            for typ in types:
+            intcentres = np.vstack([np.zeros(dim, dtype=int), np.arange(1, dim + 1)])
+            for typ, order, cen in [(t, 3, centers) for t in types] + [(t, o, c) for t in types for o, c in ((0 if t != "pure-radial" else 1, centers),
+                                                                                                 (5, intcentres))]:
                 n += 1
-                rep.evaluated(1, ("class-independence", name, typ))
+                rep.evaluated(1, ("class-independence", name, typ, order))
+                tag = "" if order == 3 else f":order={order}" + (":int-centres" if cen is intcentres else "")
                 try:
-                    got, o1 = g.moments(3, centers, f, type_mom=typ, return_orders=True)
-                    want, o2 = ref.moments(3, centers, f, type_mom=typ, return_orders=True)
+                    got, o1 = g.moments(order, cen, f, type_mom=typ, return_orders=True)
+                    want, o2 = ref.moments(order, cen.astype(float), f, type_mom=typ, return_orders=True)
                 except Exception as e:  # noqa: BLE001
-                    rep.violation(f"class-independence:{name}:{typ}:raises", f"{name}.moments(type_mom={typ!r}) raised {type(e).__name__}: {e}")
+                    rep.violation(f"class-independence:{name}:{typ}{tag}:raises", f"{name}.moments({order}, type_mom={typ!r}) raised {type(e).__name__}: {e}")
                     continue
                 scale = float(np.max(np.abs(want))) + 1.0
                 err = float(np.max(np.abs(np.asarray(got) - np.asarray(want)))) if np.shape(got) == np.shape(want) else float("inf")
                 _stat("class_independence_err_over_scale", err / scale if np.isfinite(err) else 0.0)
                 if not (err <= 1e-11 * scale and np.array_equal(o1, o2)):
-                    rep.violation(f"class-independence:{name}:{typ}",
-                                  f"{name}.moments(type_mom={typ!r}) differs from Grid(points, weights).moments on the same points "
+                    rep.violation(f"class-independence:{name}:{typ}{tag}",
+                                  f"{name}.moments({order}, type_mom={typ!r}) differs from Grid(points, weights).moments on the same points "
                                   f"and weights (max difference {err:.3g}, scale {scale:.3g})",
-                                  {"class": name, "type": typ, "centers": centers.tolist()})
+                                  {"class": name, "type": typ, "order": order, "centers": cen.tolist()})
     return n
+
+
+# --------------------------------------------------------------------------------------------
+# second model: spec/MomentsX.tla + spec/MC_MomentsX.tla (argument forms, per-case maximal orders, many centres,
+# geometries, rescaling, sessions on shared objects, listing call forms, extended dipole cases)
+
+X_INVARIANTS = ["XScaleLaw", "XCaseWellFormed", "PrefixLaw", "DipoleXIsFirstMomentDifference", "SessionStateIsFold",
+                "JudgeX", "JudgeList", "JudgeSession"]
+SCRIBBLE = -7
+
+
+def _x_consts(rep: Report, tier: str) -> dict:
+    quick = tier == "quick"
+    return {"Seed": rep.seed, "NX": 18 if quick else 400, "CartLX": 6, "BigL": 8 if quick else 12,
+            "PureLX": 4 if quick else 6, "NSess": 5 if quick else 100, "SessLen": 12 if quick else 18,
+            "NDipX": 8 if quick else 150, "MaxOrderX": 8 if quick else 12}
+
+
+def _x_obs_module(wd: Path, jsonfile):
+    if jsonfile:
+        body = f'AllObsX == JsonDeserialize("{jsonfile}")\nXObs == AllObsX.x\nSessObs == AllObsX.sess\nListObs == AllObsX.list'
+    else:
+        body = "XObs == <<>>\nSessObs == <<>>\nListObs == <<>>"
+    (wd / "Obs_momentsx.tla").write_text(f"---- MODULE Obs_momentsx ----\nEXTENDS Json\n{body}\n====\n")
+
+
+_DTYPES = {"f8": np.float64, "i8": np.int64, "i4": np.int32, "f4": np.float32, "f2": np.float16, "g": np.longdouble,
+           "bool": np.bool_, "u1": np.uint8, "int": np.int64, "i2": np.int16}
+
+
+def _form(values, form, shift=0):
+    """Realise an argument form of the specification (MomentsX.tla, section 2) for the exact rationals ``values``
+    times 2^shift.  The specification guarantees admissibility; a lossy conversion is a machinery failure."""
+    ref = np.array([[float(v) for v in r] for r in values] if values and isinstance(values[0], (list, tuple))
+                   else [float(v) for v in values], dtype=np.float64)
+    ref = ref * 2.0 ** shift
+    if form in _DTYPES:
+        a = ref.astype(_DTYPES[form])
+    elif form in ("C", "readonly"):
+        a = ref.copy()
+    elif form == "F":
+        a = np.asfortranarray(ref)
+    elif form == "strided":
+        base = np.full((2 * len(ref),) + ref.shape[1:], 12345.0)
+        base[::2] = ref
+        a = base[::2]
+    elif form == "flat":
+        a = ref[:, 0].copy()
+    else:
+        raise tlc.MachineryError(f"unknown argument form {form!r}")
+    if not np.array_equal(np.asarray(a, dtype=np.longdouble).reshape(ref.shape), ref.astype(np.longdouble)):
+        raise tlc.MachineryError(f"argument form {form!r} cannot hold {ref.tolist()} exactly")
+    if form == "readonly":
+        a.flags.writeable = False
+    return a
+
+
+def _pretty(x):
+    """Emitted rationals <<n, d>> as strings, recursively."""
+    if isinstance(x, list):
+        if len(x) == 2 and all(isinstance(v, int) and not isinstance(v, bool) for v in x):
+            return str(Fraction(*x))
+        return [_pretty(v) for v in x]
+    if isinstance(x, dict):
+        return {k: _pretty(v) for k, v in x.items()}
+    return x
+
+
+def _same(a, ref):
+    """The array still holds exactly the numbers ``ref`` (its own snapshot)."""
+    try:
+        return np.shape(a) == np.shape(ref) and bool(np.array_equal(np.asarray(a), ref))
+    except Exception:  # noqa: BLE001
+        return False
+
+
+def _order_arg(order, oform):
+    return {"int": int, "np.int64": np.int64, "np.int32": np.int32}[oform](order)
+
+
+def _call_moments(g, order, centres, fvals, typ, callform, notype=False):
+    """Grid.moments in one of the call forms; returns (moments, rows or None)."""
+    ret = not callform.endswith("-noret")
+    if callform.startswith("kw"):
+        kw = {"orders": order, "centers": centres, "func_vals": fvals}
+        if not notype:
+            kw["type_mom"] = typ
+        if ret:
+            kw["return_orders"] = True
+        out = g.moments(**kw)
+    else:
+        args = [order, centres, fvals]
+        if not notype:
+            args.append(typ)
+        if ret:
+            out = g.moments(*args, True) if not notype else g.moments(*args, return_orders=True)
+        else:
+            out = g.moments(*args)
+    if ret:
+        mom, rows = out
+        return mom, _rows(rows)
+    return out, None
+
+
+def _deg(typ, row):
+    return sum(row) if typ == "cartesian" else row[0] if typ in ("radial", "pure") else row[0] + row[1]
+
+
+def _tree_compare(rep, key, what, typ, mom, nrows, trees, terms_per_centre, shift, info, statname):
+    """Compare a (nrows, ncentres) table with sum_i coef_i B(at_i) 2^(shift deg) from the specification's trees."""
+    mom = np.asarray(mom)
+    ncen = len(terms_per_centre)
+    if mom.shape != (nrows, ncen):
+        rep.violation(f"{key}:shape", f"{what}: result has shape {mom.shape}, specification lists {nrows} rows for {ncen} centres", info)
+        return
+    if len(trees) < nrows:
+        raise tlc.MachineryError(f"{key}: {nrows} rows but only {len(trees)} trees emitted")
+    mom = np.asarray(mom, dtype=np.float64)
+    for ci in range(ncen):
+        terms = [(_q(t["coef"]), [_q(v) for v in t["at"]]) for t in terms_per_centre[ci]]
+        want, mags = _basis_values(trees[:nrows], terms, "fraction" if typ == "cartesian" else "mp")
+        rad = [float(sum(float(v) ** 2 for v in at)) ** 0.5 for _, at in terms]
+        for r in range(nrows):
+            row = trees[r]["_row"]
+            deg = _deg(typ, row)
+            fac = 2.0 ** (shift * deg)
+            scale = mags[r] if typ == "cartesian" else sum(abs(float(cf)) * rr ** deg for (cf, _), rr in zip(terms, rad))
+            err = abs(mom[r, ci] - want[r] * fac) / fac
+            if scale > 0:
+                _stat(statname + typ, err / scale)
+            if not err <= VAL_RTOL * scale:
+                rep.violation(f"{key}:row={row}:centre={ci}",
+                              f"{what}: {typ} moment {row} about centre {ci}: specification {want[r] * fac!r}, implementation "
+                              f"{mom[r, ci]!r} (scale {scale * fac:.3g})",
+                              {**info, "type": typ, "row": row, "centre": ci, "spec": want[r] * fac, "observed": mom[r, ci]})
+
+
+def _observe_x(rep: Report, tier: str, em: dict):
+    from grid.basegrid import Grid
+    from grid.utils import dipole_moment_of_molecule, generate_orders_horton_order, isotopic_masses
+    n = 0
+    # the emitted tree lists and, next to them, the rows they belong to (the specification's stacked listings)
+    treelists = {("cartesian", d + 1): em["cart"][d] for d in range(3)}
+    treelists.update({("radial", d + 1): em["radial"][d] for d in range(3)})
+    treelists[("pure", 3)] = em["pure"]
+    treelists[("pure-radial", 3)] = em["pure_radial"]
+    rowlists = {("cartesian", d + 1): em["rows"]["cartesian"][d] for d in range(3)}
+    rowlists.update({("radial", d + 1): em["rows"]["radial"][d] for d in range(3)})
+    rowlists[("pure", 3)] = em["rows"]["pure"]
+    rowlists[("pure-radial", 3)] = em["rows"]["pure_radial"]
+    for key, lst in treelists.items():
+        if len(lst) != len(rowlists[key]):
+            raise tlc.MachineryError(f"emitted {len(lst)} trees for {len(rowlists[key])} rows of {key}")
+        for t, row in zip(lst, rowlists[key]):
+            t["_row"] = [int(v) for v in row]
+
+    # ---- extended cases ---------------------------------------------------------------------
+    xobs = []
+    for k, item in enumerate(em["xcases"], 1):
+        c, nrows = item["case"], item["nrows"]
+        dim, shift = c["dim"], c["shift"]
+        pts = [[_q(v) for v in p] for p in c["pts"]]
+        ckey = f"x:case={k}:dim={dim}:{c['geom']}"
+        info = {"dim": dim, "geometry": c["geom"], "points": [[str(v) for v in p] for p in pts],
+                "weights": [str(_q(v)) for v in c["wts"]], "fvals": [str(_q(v)) for v in c["fvals"]],
+                "centres": [[str(_q(v)) for v in r] for r in c["centres"]], "points_and_centres_times": f"2^{shift}",
+                "forms": {"fvals": c["fform"], "centres": c["cform"], "points": c["gform"], "orders": c["oform"], "call": c["callform"]}}
+        rec = {"cart": []}
+        xobs.append(rec)
+        try:
+            P = _form(pts, c["gform"], shift) if pts else np.zeros((0, dim)) if c["gform"] != "flat" else np.zeros(0)
+            W = _form([_q(v) for v in c["wts"]], c["gform"] if c["gform"] in ("strided", "readonly") else "f8")
+            C = _form([[_q(v) for v in r] for r in c["centres"]], c["cform"], shift)
+            F = _form([_q(v) for v in c["fvals"]], c["fform"])
+            snap = [np.array(a) for a in (P, W, C, F)]
+            g = Grid(P, W)
+        except tlc.MachineryError:
+            raise
+        except Exception as e:  # noqa: BLE001
+            rep.violation(f"{ckey}:grid", f"Grid(points, weights) raised {type(e).__name__}: {e}", info)
+            continue
+        # (a) Cartesian, maximal order lcart, judged exactly by TLC
+        n += 1
+        rep.evaluated(1, ("x-cartesian", dim, c["geom"], c["fform"], c["cform"], c["gform"]))
+        what = f"Grid.moments({c['oform']}({c['lcart']}), call form {c['callform']}{', type_mom omitted' if c['notype'] else ''})"
+        try:
+            mom, rows = _call_moments(g, _order_arg(c["lcart"], c["oform"]), C, F, "cartesian", c["callform"], c["notype"])
+            mom = np.asarray(mom)
+            if mom.shape != (nrows["cart"], len(C)):
+                raise ValueError(f"result has shape {mom.shape} for {nrows['cart']} rows and {len(C)} centres")
+            if rows is not None and len(rows) != nrows["cart"]:
+                raise ValueError(f"{len(rows)} rows listed, specification lists {nrows['cart']}")
+            table = []
+            for r in range(mom.shape[0]):
+                deg = _deg("cartesian", treelists[("cartesian", dim)][r]["_row"])
+                out = []
+                for ci in range(mom.shape[1]):
+                    v = float(mom[r, ci]) / 2.0 ** (shift * deg)
+                    sn = _snap(v, c["lbits"])
+                    if sn is None:
+                        rep.violation(f"{ckey}:cartesian:row={r}:centre={ci}:off-lattice",
+                                      f"{what}: Cartesian moment row {r} centre {ci} = {mom[r, ci]!r} is not 2^({shift}*{deg}) times a "
+                                      f"multiple of 2^-{c['lbits']} although every input is a small dyadic rational", info)
+                        sn = NOTREC
+                    out.append(sn)
+                table.append(out)
+            rec["cart"] = table
+        except Exception as e:  # noqa: BLE001
+            rep.violation(f"{ckey}:cartesian:raises", f"{what} raised {type(e).__name__}: {e}", info)
+        # (b) by trees: Cartesian and radial at the larger order, pure, pure-radial
+        todo = [("cartesian", c["lbig"], nrows["big"], treelists[("cartesian", dim)]),
+                ("radial", c["lbig"], nrows["radial"], treelists[("radial", dim)])]
+        if dim == 3:
+            todo += [("pure", c["lpure"], nrows["pure"], treelists[("pure", 3)]),
+                     ("pure-radial", c["lpr"], nrows["pure_radial"], treelists[("pure-radial", 3)])]
+        first = None
+        for typ, ll, nr, trees in todo:
+            n += 1
+            rep.evaluated(1, ("x-" + typ, dim, c["geom"], ll, len(C)))
+            what = f"Grid.moments({c['oform']}({ll}), type_mom={typ!r}, call form {c['callform']})"
+            try:
+                mom, rows = _call_moments(g, _order_arg(ll, c["oform"]), C, F, typ, c["callform"])
+                if rows is not None and len(rows) != nr:
+                    raise ValueError(f"{len(rows)} rows listed, specification lists {nr}")
+            except Exception as e:  # noqa: BLE001
+                rep.violation(f"{ckey}:{typ}:raises", f"{what} raised {type(e).__name__}: {e}", info)
+                continue
+            if first is None:
+                first = (typ, ll, np.array(mom))
+            _tree_compare(rep, f"{ckey}:{typ}", what, typ, mom, nr, trees, item["terms"], shift, info, "x_err_over_scale_")
+        # (c) frame: no argument object was modified;  (d) the same call with the same objects again gives the same
+        names = ("grid.points", "grid.weights", "centers", "func_vals")
+        touched = [nm for nm, a, b in zip(names, (g.points, g.weights, C, F), snap) if not _same(a, b)]
+        if touched:
+            rep.violation(f"{ckey}:argument-modified:{','.join(touched)}",
+                          f"after the Grid.moments calls of this case {touched} no longer hold the numbers that were passed in", info)
+        if first is not None:
+            typ, ll, mom1 = first
+            try:
+                mom2, _ = _call_moments(g, _order_arg(ll, c["oform"]), C, F, typ, c["callform"])
+                if not (np.shape(mom2) == mom1.shape and np.array_equal(np.asarray(mom2), mom1)):
+                    rep.violation(f"{ckey}:{typ}:second-call-differs",
+                                  f"Grid.moments({ll}, type_mom={typ!r}) called again with the same objects returns other numbers", info)
+            except Exception as e:  # noqa: BLE001
+                rep.violation(f"{ckey}:{typ}:second-call-raises", f"second identical call raised {type(e).__name__}: {e}", info)
+        if k <= 3:
+            rep.sample({"xcase": {kk: c[kk] for kk in ("dim", "geom", "fform", "cform", "gform", "oform", "callform", "shift", "lcart", "lbig", "lpure", "lpr")},
+                        "points": info["points"], "centres": info["centres"]})
+
+    # ---- order-listing call forms -------------------------------------------------------------
+    lobs = []
+    for call in em["lists"]:
+        form, typ, dim, order = call["form"], call["type"], call["dim"], call["order"]
+        n += 1
+        rep.evaluated(1, ("list", form, typ, dim, order))
+        rows = [[SCRIBBLE]]
+        try:
+            if form == "nodim":
+                rows = _rows(generate_orders_horton_order(order, typ))
+            elif form == "kwargs":
+                rows = _rows(generate_orders_horton_order(order=order, type_ord=typ, dim=dim))
+            elif form == "twice":
+                r1 = generate_orders_horton_order(order, typ, dim)
+                if np.size(r1) and r1.flags.writeable:
+                    r1[...] = SCRIBBLE
+                rows = _rows(generate_orders_horton_order(order, typ, dim))
+            else:
+                g = _grid([[Fraction(i + 1, 2)] * dim for i in range(3)], [1, 2, 1])
+                o = np.int64(order) if form == "np64" else np.int32(order)
+                _, r1 = g.moments(o, np.zeros((1, dim)), np.array([1.0, -1.0, 2.0]), typ, return_orders=True)
+                rows = _rows(r1)
+        except Exception as e:  # noqa: BLE001
+            rep.violation(f"list:{form}:{typ}:dim={dim}:order={order}:raises",
+                          f"order listing, call form {form!r} ({typ}, order {order}, dim {dim}) raised {type(e).__name__}: {e}")
+        lobs.append({"rows": rows})
+
+    # ---- sessions ---------------------------------------------------------------------------
+    sobs = []
+    for k, sess in enumerate(em["sessions"], 1):
+        o = sess["objects"]
+        dim = o["dim"]
+        arr = lambda rows: np.array([[float(_q(v)) for v in r] for r in rows])  # noqa: E731
+        vec = lambda vals: np.array([float(_q(v)) for v in vals])  # noqa: E731
+        objs = {"cset1": arr(o["csets"][0]), "cset2": arr(o["csets"][1]), "fvec1": vec(o["fvecs"][0]), "fvec2": vec(o["fvecs"][1])}
+        grids = {"a": Grid(arr(o["a"]), vec(o["wa"])), "b": Grid(arr(o["b"]), vec(o["wb"]))}
+        fixed = {nm: a.copy() for nm, a in objs.items()}
+        fixed.update({"a.weights": grids["a"].weights.copy(), "b.weights": grids["b"].weights.copy()})
+        returned, steps_obs = [], []
+        for j, st in enumerate(sess["steps"], 1):
+            step = st["step"]
+            op = step["op"]
+            ob = {"rows": [], "cart": [], "touched": [], "ran": False}
+            steps_obs.append(ob)
+            skey = f"session={k}:step={j}:{op}"
+            hist = [s2["step"] for s2 in sess["steps"][:j]]
+            info = {"dim": dim, "objects": _pretty(o), "steps_so_far": hist}
+            n += 1
+            try:
+                if op == "moments":
+                    typ, ll = step["type"], step["order"]
+                    rep.evaluated(1, ("session", typ, ll, step["g"], step["c"], step["f"]))
+                    g, C, F = grids[step["g"]], objs[f"cset{step['c']}"], objs[f"fvec{step['f']}"]
+                    out = g.moments(ll, C, F, typ, True) if step["ret"] else g.moments(ll, C, F, typ)
+                    mom, rows = out if step["ret"] else (out, None)
+                    if rows is not None:
+                        ob["rows"] = _rows(rows)
+                        returned.append(rows)
+                    if isinstance(mom, np.ndarray):
+                        returned.append(mom)
+                    momf = np.array(mom, dtype=np.float64)
+                    ob["ran"] = True
+                    what = f"step {j} of session {k}: grid {step['g']}.moments({ll}, cset{step['c']}, fvec{step['f']}, {typ!r})"
+                    if typ == "cartesian":
+                        table = []
+                        for r in range(momf.shape[0] if momf.ndim == 2 else 0):
+                            out = []
+                            for ci in range(momf.shape[1]):
+                                sn = _snap(momf[r, ci], ll)
+                                if sn is None:
+                                    rep.violation(f"{skey}:row={r}:centre={ci}:off-lattice",
+                                                  f"{what}: Cartesian moment row {r} centre {ci} = {momf[r, ci]!r} is not a multiple of 2^-{ll}", info)
+                                    sn = NOTREC
+                                out.append(sn)
+                            table.append(out)
+                        ob["cart"] = table
+                    else:
+                        _tree_compare(rep, f"{skey}:{typ}", what, typ, momf, st["at"]["nrows"], treelists[(typ, dim if typ == "radial" else 3)],
+                                      st["at"]["terms"], 0, info, "session_err_over_scale_")
+                elif op == "orders":
+                    rep.evaluated(1, ("session-orders", step["type"], step["order"], step["dim"]))
+                    r1 = generate_orders_horton_order(step["order"], step["type"], step["dim"])
+                    ob["rows"] = _rows(r1)
+                    ob["ran"] = True
+                    returned.append(r1)
+                elif op == "assign":
+                    other = grids["b" if step["g"] == "a" else "a"]
+                    grids[step["g"]].points = np.array(other.points)
+                elif op == "edit":
+                    grids[step["g"]].points[0, 0] += 1.0
+                else:   # scribble
+                    for a in returned:
+                        if isinstance(a, np.ndarray) and a.size and a.flags.writeable:
+                            a[...] = SCRIBBLE
+            except Exception as e:  # noqa: BLE001
+                rep.violation(f"{skey}:raises", f"step {j} of session {k} ({step}) raised {type(e).__name__}: {e}", info)
+            # frame: every object holds what the session machine's state says
+            after = {nm: arr(st["after"][nm]) for nm in ("a", "b")}
+            for nm in ("a", "b"):
+                if not _same(grids[nm].points, after[nm]):
+                    ob["touched"].append(f"{nm}.points")
+            for nm, ref in fixed.items():
+                cur = grids[nm[0]].weights if nm.endswith(".weights") else objs[nm]
+                if not _same(cur, ref):
+                    ob["touched"].append(nm)
+        sobs.append(steps_obs)
+
+    # ---- extended dipole cases ----------------------------------------------------------------
+    for k, item in enumerate(em["dipoles"], 1):
+        c = item["case"]
+        n += 1
+        zs = [a["z"] for a in c["mol"]]
+        rep.evaluated(1, ("x-dipole", tuple(zs), c["zform"], c["coform"], c["dform"]))
+        coords_q = [[_q(v) for v in a["r"]] for a in c["mol"]]
+        info = {"charges": zs, "coords": [[str(v) for v in r] for r in coords_q], "points": [[str(_q(v)) for v in p] for p in c["pts"]],
+                "weights": [str(_q(v)) for v in c["wts"]], "density": [str(_q(v)) for v in c["rho"]],
+                "forms": {"charges": c["zform"], "coords": c["coform"], "density": c["dform"]}}
+        dkey = f"x-dipole:case={k}:Z={zs}"
+        try:
+            env = {f"m{i + 1}": Fraction(repr(float(isotopic_masses[z]))) for i, z in enumerate(zs)}
+            for i in range(len(zs), 6):
+                env[f"m{i + 1}"] = Fraction(1)
+            want = np.array([float(evaluate(t, env, "fraction")) for t in item["trees"]])
+            g = _grid([[_q(v) for v in p] for p in c["pts"]], [_q(v) for v in c["wts"]])
+            rho = _form([_q(v) for v in c["rho"]], c["dform"])
+            coords = _form(coords_q, c["coform"])
+            Z = _form(zs, c["zform"])
+            snap = [np.array(rho), np.array(coords), np.array(Z), g.points.copy(), g.weights.copy()]
+            got = np.asarray(dipole_moment_of_molecule(g, rho, coords, Z), float).ravel()
+            if got.shape != (3,):
+                raise ValueError(f"result has shape {got.shape}")
+            again = np.asarray(dipole_moment_of_molecule(g, rho, coords, Z), float).ravel()
+        except tlc.MachineryError:
+            raise
+        except Exception as e:  # noqa: BLE001
+            rep.violation(f"{dkey}:raises", f"dipole_moment_of_molecule raised {type(e).__name__}: {e}", info)
+            continue
+        cf = np.array([[float(v) for v in r] for r in coords_q])
+        mag = float(np.sum(np.abs(cf)) * max(zs) + np.sum(np.abs(g.points)) * np.max(np.abs(g.weights * np.asarray(snap[0], float)))) + 1.0
+        err = float(np.max(np.abs(got - want)))
+        _stat("x_dipole_err_over_mag", err / mag)
+        if not err <= DIP_RTOL * mag:
+            rep.violation(dkey, f"dipole of charges {zs}: specification {want.tolist()}, implementation {got.tolist()}",
+                          {**info, "spec": want.tolist(), "observed": got.tolist()})
+        touched = [nm for nm, a, b in zip(("density", "coords", "charges", "grid.points", "grid.weights"),
+                                          (rho, coords, Z, g.points, g.weights), snap) if not _same(a, b)]
+        if touched:
+            rep.violation(f"{dkey}:argument-modified:{','.join(touched)}",
+                          f"dipole_moment_of_molecule modified its arguments {touched}", info)
+        if not np.array_equal(got, again):
+            rep.violation(f"{dkey}:second-call-differs", "dipole_moment_of_molecule called again with the same objects returns other numbers", info)
+    return {"x": xobs, "sess": sobs, "list": lobs}, n
+
+
+def _run_x(rep: Report, tier: str, wd: Path) -> int:
+    consts = _x_consts(rep, tier)
+    _x_obs_module(wd, None)
+    cfg = _cfg(wd, "MC_MomentsX_emit.cfg", {**consts, "Emit": True})
+    res = tlc.run_tlc("MC_MomentsX", cfg, wd, workers=1, timeout=1500).require_ok("MC_MomentsX emit")
+    if res.status != "ok" or not (wd / "cases_momentsx.json").exists():
+        raise tlc.MachineryError(f"MC_MomentsX: emission failed\n{res.stdout[-3000:]}")
+    with open(wd / "cases_momentsx.json") as f:
+        em = json.load(f)
+    obs, n = _observe_x(rep, tier, em)
+    with open(wd / "obs_momentsx.json", "w") as f:
+        json.dump(obs, f)
+    _x_obs_module(wd, "obs_momentsx.json")
+    cfg = _cfg(wd, "MC_MomentsX.cfg", {**consts, "Emit": False}, X_INVARIANTS)
+    res = tlc.run_tlc("MC_MomentsX", cfg, wd, workers=8, timeout=1500).require_ok("MC_MomentsX")
+    rep.tlc(res, "MC_MomentsX")
+    if res.status == "violation":
+        st = tlc.last_state(res)
+        rep.violation(f"modelx:{','.join(res.violated)}", f"TLC: invariant(s) {res.violated} of MC_MomentsX violated; last state {st}", st)
+    for t in _tagged(res.stdout, "MISMATCH"):
+        kind = t[1]
+        if kind == "list":
+            call = em["lists"][t[2] - 1]
+            rep.violation(f"list:{call['form']}:{call['type']}:dim={call['dim']}:order={call['order']}",
+                          f"order listing, call form {call['form']!r} ({call['type']}, order {call['order']}, dim {call['dim']}): "
+                          f"specification {t[3]}, implementation {t[4]}", {"call": call, "spec": t[3], "observed": t[4]})
+        elif kind in ("x-rows", "x-cart"):
+            c = em["xcases"][t[2] - 1]["case"]
+            ckey = f"x:case={t[2]}:dim={c['dim']}:{c['geom']}"
+            if kind == "x-rows":
+                rep.violation(f"{ckey}:cartesian:row-count", f"{t[4]} rows returned, specification lists {t[3]}")
+            else:
+                row, ci = t[3]
+                rep.violation(f"{ckey}:cartesian:row={row}:centre={ci - 1}",
+                              f"Cartesian moment {row} about centre {[str(_q(v)) for v in c['centres'][ci - 1]]} (points and centres times "
+                              f"2^{c['shift']}, value divided accordingly): specification {_q(t[4])}, implementation {_q(t[5])}",
+                              {"case": c, "row": row, "spec": str(_q(t[4])), "observed": str(_q(t[5]))})
+        else:   # sess-*
+            k, j = t[2]
+            sess = em["sessions"][k - 1]
+            step = sess["steps"][j - 1]["step"]
+            info = {"objects": _pretty(sess["objects"]), "steps_so_far": [s2["step"] for s2 in sess["steps"][:j]], "spec": t[-2], "observed": t[-1]}
+            if kind == "sess-touched":
+                rep.violation(f"session={k}:step={j}:{step['op']}:argument-modified:{','.join(t[-1])}",
+                              f"after step {j} of session {k} ({step}) the objects {t[-1]} do not hold what the session's state says", info)
+            elif kind == "sess-cart":
+                row, ci = t[3]
+                rep.violation(f"session={k}:step={j}:{step['op']}:row={row}:centre={ci - 1}",
+                              f"step {j} of session {k} ({step}): Cartesian moment {row} about centre {ci - 1} of the grid as it is at "
+                              f"that step: specification {_q(t[4])}, implementation {_q(t[5])}", info)
+            else:
+                rep.violation(f"session={k}:step={j}:{step['op']}:{kind}",
+                              f"step {j} of session {k} ({step}): specification {t[-2]}, implementation {t[-1]}", info)
+    rep.sample({"session_1_steps": [s2["step"] for s2 in em["sessions"][0]["steps"]]})
+    rep.sample({"x_dipole_case": em["dipoles"][0]["case"]})
+    return n
+
 
 
 def run(tier: str) -> int:
@@ -380,16 +870,22 @@ def run(tier: str) -> int:
     wd = tlc.scratch(f"{PROP}-{tier}")
     STATS.clear()
     n = _run_families(rep, tier, wd)
+    n += _run_x(rep, tier, wd)
     n += _class_independence(rep, tier)
     rep.set("traces_validated_against_impl", n)
     rep.set("exhaustive", True)
     rep.set("rule", "one case = one call of generate_orders_horton_order / Grid.moments / dipole_moment_of_molecule on a case "
-                    "emitted by the specification; distinct = distinct (type, dimension, order | point-set kind, number of centres)")
+                    "emitted by the specification (or one step of a session emitted by it); distinct = distinct (type, dimension, "
+                    "order | point-set kind / geometry, number of centres, argument forms | session step signature)")
     rep.set("measured_max_errors", {k: float(f"{v:.3g}") for k, v in sorted(STATS.items())})
     rep.assume("Cartesian moments of dyadic point sets are computed without rounding by the implementation (checked: values "
                "off the lattice 2^-L are reported); they are judged exactly by TLC")
     rep.assume("radial / pure / pure-radial values and dipoles are compared by the harness with the specification's trees "
                "(explicit solid-harmonic formula, checked in TLC for harmonicity, homogeneity, sign convention, Unsold sum rule)")
+    rep.assume("argument forms (dtype, memory layout, read-only) are realised by the harness; the specification fixes the value "
+               "lattice on which each form is exact, and the harness verifies that the array holds exactly the case's numbers")
+    rep.assume("rescaled cases: points and centres are multiplied by 2^shift (exact in floating point); the expected values follow "
+               "from the specification's scaling law (CartScaleLaw checked by TLC; homogeneity of the solid harmonics checked in MC_Moments)")
     return rep.finish()
 
 
@@ -413,11 +909,48 @@ MUTANTS = [
     ("lm-row-base", "basegrid", "indices = l_degrees**2", "indices = l_degrees * (l_degrees + 1)"),
     ("pure-radial-n-plus-one", "basegrid", "cent_pts_with_order = cent_pts_with_order ** n_princ[:, None]", "cent_pts_with_order = cent_pts_with_order ** (n_princ[:, None] + 1)"),
     ("radial-n-plus-one", "basegrid", "cent_pts_with_order ** np.ravel(all_orders)[:, None]", "cent_pts_with_order ** (np.ravel(all_orders)[:, None] + 1)"),
-    ("centre-broadcast", "basegrid", "centered_pts = self.points - center", "centered_pts = self.points - centers[0]"),
+    ("centre-broadcast", "basegrid", "centered_pts = points - center", "centered_pts = points - centers[0]"),
     ("cartesian-weights-dropped", "basegrid", 'integral = np.einsum("ln,n,n->l", cent_pts_with_order, func_vals, self.weights)\n            elif',
      'integral = np.einsum("ln,n->l", cent_pts_with_order, func_vals)\n            elif'),
     ("max-order-minus-one", "basegrid", "solid_harm = solid_harmonics(orders[-1], sph_pts)", "solid_harm = solid_harmonics(max(orders[-1] - 1, 0), sph_pts)"),
     ("first-order-skipped", "basegrid", "for l_ord in orders[1:]:", "for l_ord in orders[2:]:"),
+]
+
+
+# mutants that need the second model (MomentsX): the first model alone is expected to miss most of them, which
+# selftest reports as "base: missed"
+X_MUTANTS = [
+    ("orders-memoised-shared-array", "utils", "def generate_orders_horton_order(order: int, type_ord: str, dim: int = 3):",
+     "_MEMO = {}\n\n\ndef generate_orders_horton_order(order, type_ord, dim=3):\n    key = (order, type_ord, dim)\n"
+     "    if key not in _MEMO:\n        _MEMO[key] = _generate_orders(order, type_ord, dim)\n    return _MEMO[key]\n\n\n"
+     "def _generate_orders(order: int, type_ord: str, dim: int = 3):"),
+    ("solid-harmonics-cached-per-centre", "basegrid",
+     "                    sph_pts = convert_cart_to_sph(centered_pts)\n                    solid_harm = solid_harmonics(orders[-1], sph_pts)\n",
+     "                    _key = (orders[-1], tuple(float(v) for v in center))\n"
+     "                    if getattr(self, '_sh_cache', None) is None:\n                        self._sh_cache = {}\n"
+     "                    if _key not in self._sh_cache:\n"
+     "                        self._sh_cache[_key] = solid_harmonics(orders[-1], convert_cart_to_sph(centered_pts))\n"
+     "                    solid_harm = self._sh_cache[_key]\n"),
+    ("origin-threshold", "utils", "phi[r == 0.0] = 0.0", "phi[r < 1e-10] = 0.0"),
+    ("result-dtype-of-centres", "basegrid", "np.array(integrals).T", "np.array(integrals).astype(centers.dtype).T"),
+    ("numpy-orders-rejected", "basegrid", "isinstance(orders, (int, np.int32, np.int64))", "isinstance(orders, int)"),
+    ("type-mom-default", "basegrid", 'type_mom: str = "cartesian",', 'type_mom: str = "radial",'),
+    ("orders-dim-default", "utils", "type_ord: str, dim: int = 3):", "type_ord: str, dim: int = 2):"),
+    ("centred-points-keep-grid-dtype", "basegrid", "centered_pts = points - center", "centered_pts = (points - center).astype(points.dtype)"),
+    ("radial-abs-weights", "basegrid",
+     '# Take the integral |r - R_c|^l  f(r, theta, phi) weights\n                    integral = np.einsum("ln,n,n->l", cent_pts_with_order, func_vals, self.weights)',
+     '# Take the integral |r - R_c|^l  f(r, theta, phi) weights\n                    integral = np.einsum("ln,n,n->l", cent_pts_with_order, func_vals, np.abs(self.weights))'),
+    ("zero-weight-points-dropped-from-f", "basegrid", "        integrals = []\n        for center in centers:",
+     "        func_vals = func_vals[self.weights != 0] if np.any(self.weights == 0) and type_mom == 'pure' else func_vals\n"
+     "        points = points[self.weights != 0] if np.any(self.weights == 0) and type_mom == 'pure' else points\n"
+     "        integrals = []\n        for center in centers:"),
+    ("dipole-coords-shifted-in-place", "utils", "cent_pts_with_order = (coords - center_mol) ** orders[:, None]",
+     "coords -= center_mol[0]\n    cent_pts_with_order = coords ** orders[:, None]"),
+    ("dipole-mass-lookup-clipped", "utils", "isotopic_masses[charge] for charge in charges", "isotopic_masses[min(int(charge), 18)] for charge in charges"),
+    ("dipole-mass-by-array-index", "utils", "masses = np.array([isotopic_masses[charge] for charge in charges])",
+     "masses = np.array([0.0] + [isotopic_masses[z] for z in range(1, 83)])[np.asarray(charges)]"),
+    ("cartesian-power-in-float32", "basegrid", "cent_pts_with_order = centered_pts ** all_orders[:, None]",
+     "cent_pts_with_order = (centered_pts.astype(np.float32) ** all_orders[:, None].astype(np.float32)).astype(float) if orders[-1] > 6 else centered_pts ** all_orders[:, None]"),
 ]
 
 
@@ -436,40 +969,55 @@ def _load_mutant(fname, old, new):
     return mod
 
 
-def selftest(tier: str = "quick") -> int:
+def _with_mutant(fname, old, new, fn):
     import grid.basegrid as bg
     import grid.utils as ut
+    mod = _load_mutant(fname, old, new)
+    fns = ("generate_orders_horton_order", "solid_harmonics", "convert_cart_to_sph", "dipole_moment_of_molecule")
+    saved_ut = {k: getattr(ut, k) for k in fns}
+    saved_bg = {k: getattr(bg, k) for k in fns[:3]}
+    saved_m = bg.Grid.moments
+    try:
+        if fname == "utils":
+            for k in fns:
+                setattr(ut, k, getattr(mod, k))
+            for k in fns[:3]:
+                setattr(bg, k, getattr(mod, k))
+        else:
+            bg.Grid.moments = mod.Grid.moments
+        return fn()
+    finally:
+        for k, v in saved_ut.items():
+            setattr(ut, k, v)
+        for k, v in saved_bg.items():
+            setattr(bg, k, v)
+        bg.Grid.moments = saved_m
+
+
+def _fresh_violations(runner, tier):
+    rep = Report(PROP, tier, "model_checking")
+    wd = tlc.scratch(f"{PROP}-selftest")
+    runner(rep, tier, wd)
+    return [v for v in rep.violations if rep._match_known(v["key"]) is None]
+
+
+def selftest(tier: str = "quick") -> int:
     only = os.environ.get("C14_MUTANTS")
-    killed, missed = [], []
-    for name, fname, old, new in MUTANTS:
-        if only and name not in only.split(","):
-            continue
-        mod = _load_mutant(fname, old, new)
-        fns = ("generate_orders_horton_order", "solid_harmonics", "convert_cart_to_sph", "dipole_moment_of_molecule")
-        saved_ut = {k: getattr(ut, k) for k in fns}
-        saved_bg = {k: getattr(bg, k) for k in fns[:3]}
-        saved_m = bg.Grid.moments
-        try:
-            if fname == "utils":
-                for k in fns:
-                    setattr(ut, k, getattr(mod, k))
-                for k in fns[:3]:
-                    setattr(bg, k, getattr(mod, k))
-            else:
-                bg.Grid.moments = mod.Grid.moments
-            rep = Report(PROP, tier, "model_checking")
-            wd = tlc.scratch(f"{PROP}-selftest")
-            _run_families(rep, tier, wd)
-            fresh = [v for v in rep.violations if rep._match_known(v["key"]) is None]
-        finally:
-            for k, v in saved_ut.items():
-                setattr(ut, k, v)
-            for k, v in saved_bg.items():
-                setattr(bg, k, v)
-            bg.Grid.moments = saved_m
-        (killed if fresh else missed).append(name)
-        print(f"mutant {name:30s} [{fname}] -> {'VIOLATION x%d, e.g. %s' % (len(fresh), fresh[0]['key'][:110]) if fresh else 'MISSED'}", flush=True)
-    print(f"selftest: {len(killed)} killed, {len(missed)} missed {missed}")
+    killed, missed, needed_x = [], [], []
+    for family, mutants in (("base", MUTANTS), ("x", X_MUTANTS)):
+        for name, fname, old, new in mutants:
+            if only and name not in only.split(","):
+                continue
+            base = _with_mutant(fname, old, new, lambda: _fresh_violations(_run_families, tier))
+            fresh, note = base, ""
+            if family == "x":
+                fresh = _with_mutant(fname, old, new, lambda: _fresh_violations(_run_x, tier))
+                note = f"  (first model alone: {'VIOLATION x%d' % len(base) if base else 'missed'})"
+                if fresh and not base:
+                    needed_x.append(name)
+            (killed if fresh else missed).append(name)
+            print(f"mutant {name:34s} [{fname}] -> {'VIOLATION x%d, e.g. %s' % (len(fresh), fresh[0]['key'][:110]) if fresh else 'MISSED'}{note}", flush=True)
+    print(f"selftest: {len(killed)} killed, {len(missed)} missed {missed}; {len(needed_x)} detected only by the second model {needed_x}")
     return 0 if not missed else 1
 
 
@@ -481,6 +1029,8 @@ def replay(path: str) -> int:
     rep = Report(PROP, v.get("tier", "quick"), "model_checking")
     wd = tlc.scratch(f"{PROP}-replay")
     _run_families(rep, v.get("tier", "quick"), wd)
+    _run_x(rep, v.get("tier", "quick"), wd)
+    _class_independence(rep, v.get("tier", "quick"))
     again = [x for x in rep.violations if x["key"] == v["key"]]
     print(f"replay {v['key']}: " + (f"reproduced: {again[0]['what'][:300]}" if again else "not reproduced"))
     return 1 if again else 0
